@@ -33,8 +33,8 @@ def read_matrix(fn):
     return m
 
 def seeded_table():
-    first = read_matrix('matrix-quick.txt')
-    final = read_matrix('matrix3.txt')
+    first = read_matrix('matrix-quick.txt'); first.update(read_matrix('matrix-r2-first.txt'))
+    final = read_matrix('matrix-final.txt')
     extra = read_matrix('matrix-extra.txt')
     rows = ["| change | what it breaks (needs) | first run (own quick check) | after strengthening | caught by |",
             "|---|---|---|---|---|"]
